@@ -709,6 +709,19 @@ func (e *Exec) visitInstr(fr *frame, instr ssa.Instruction) continuation {
 		fr.env[instr] = e.makeSlice(instr, e.to64(fr.get(instr.Len).(*Term), instr.Len.Type()), e.to64(fr.get(instr.Cap).(*Term), instr.Cap.Type()))
 	case *ssa.MakeMap:
 		e.countAlloc(48, nil, instr)
+		if instr.Reserve != nil {
+			// a size hint pre-allocates buckets: about key+value+overhead per entry
+			mt := instr.Type().Underlying().(*types.Map)
+			per := e.sizes.Sizeof(mt.Key()) + e.sizes.Sizeof(mt.Elem()) + 8
+			n := e.to64(fr.get(instr.Reserve).(*Term), instr.Reserve.Type())
+			if n.IsConst() {
+				if int64(n.C) > 0 {
+					e.countAlloc(per*int64(n.C), nil, instr)
+				}
+			} else {
+				e.countAlloc(per, n, instr)
+			}
+		}
 		fr.env[instr] = &MapV{KeyT: instr.Type().Underlying().(*types.Map).Key()}
 	case *ssa.MakeChan:
 		panic(errorf("channels are not supported"))
